@@ -98,9 +98,16 @@ def build_frame(panel, scale=1.0, rename=None, date_shift=0, permute=True, id_in
     df[panel['resp_col']] = df[panel['resp_col']].astype('int64')
   if panel.get('extra_col'):
     df['unused'] = 1.5
+  rl = panel.get('row_labels')
   if permute and panel.get('perm_seed'):
     rs = np.random.RandomState(panel['perm_seed'] % (2 ** 31))
-    df = df.iloc[rs.permutation(len(df))].reset_index(drop=True)
+    df = df.iloc[rs.permutation(len(df))]
+    if rl != 'kept':
+      df = df.reset_index(drop=True)       # 'kept': the labels travel with the shuffled rows (df.sample / df.iloc[perm])
+  if rl == 'gaps':
+    df.index = [3 * i + 1 for i in range(len(df))]         # a filtered frame
+  elif rl == 'repeated':
+    df.index = [i % max(1, len(df) // 2) for i in range(len(df))]      # chunks concatenated without ignore_index
   return df
 
 
@@ -173,13 +180,15 @@ def base_kwargs(spec):
   return kw
 
 
-def transformed(case, scale=1.0, rename=None, date_shift=0, permute=True, id_int=None, perm_seed=None):
+def transformed(case, scale=1.0, rename=None, date_shift=0, permute=True, id_int=None, perm_seed=None, row_labels=None):
   """A presentation variant of an already materialised case: same resolved kwargs (budget range scaled), new frames."""
   c = Case()
   spec = case.spec
   panel = dict(spec['panel'])
   if perm_seed is not None:
     panel['perm_seed'] = perm_seed
+  if row_labels is not None:
+    panel['row_labels'] = row_labels
   c.spec = spec
   c.resp_col = panel['resp_col']
   c.df = build_frame(panel, scale, rename, date_shift, permute, id_int)
